@@ -1182,9 +1182,36 @@ func (j *judgeCtx) checkOutcomes() {
 			continue
 		}
 		if s.Batch >= 0 {
-			// one fixed injective decoration of Item.ID: must end with the item id
-			if !strings.HasSuffix(s.IDSeen, s.ID) || s.ID == "" {
-				j.add("C07.b", s.Entries[0], "batch item %d (Item.ID %q) carried id %q inside the worker function", s.N, s.ID, s.IDSeen)
+			// one fixed injective decoration of the item's id: it must end with the id the
+			// item was given (Item.ID, else a value the generator returned during that
+			// AddAll to that task), and no two items may end up with the same id
+			if s.ID != "" {
+				if !strings.HasSuffix(s.IDSeen, s.ID) {
+					j.add("C07.b", s.Entries[0], "batch item %d (Item.ID %q) carried id %q inside the worker function", s.N, s.ID, s.IDSeen)
+				}
+			} else if wd.cfg.IDGen {
+				var task int
+				for _, c := range j.r.calls {
+					if c.K == opAddAll && c.Batch == s.Batch {
+						task = c.Task
+					}
+				}
+				okID := false
+				for _, g := range j.r.gens {
+					if g.Task == task && g.Seq >= s.AddInv && g.Seq <= s.AddRet && strings.HasSuffix(s.IDSeen, g.ID) {
+						okID = true
+					}
+				}
+				if !okID {
+					j.add("C07.b", s.Entries[0], "batch item %d (no Item.ID) carried id %q, which does not end with a value the id generator returned during its AddAll", s.N, s.IDSeen)
+				}
+			}
+			for _, o := range wd.subs {
+				if o.N < s.N && o.Batch >= 0 && len(o.Entries) > 0 && o.IDSeen == s.IDSeen && (o.ID != s.ID || wd.cfg.IDGen) {
+					j.add("C07.b", s.Entries[0], "batch items %d (Item.ID %q) and %d (Item.ID %q) both carried the id %q inside the worker function", o.N, o.ID, s.N, s.ID, s.IDSeen)
+					j.add("C08.a", s.Entries[0], "batch items %d (Item.ID %q) and %d (Item.ID %q) are both tagged %q", o.N, o.ID, s.N, s.ID, s.IDSeen)
+					break
+				}
 			}
 			continue
 		}
@@ -1321,36 +1348,41 @@ func (j *judgeCtx) checkBatches() {
 		}
 		if b.gr != nil {
 			seen := map[int]int{}
+			matches := func(hit *Sub, g streamItem) bool {
+				switch hit.Outcome {
+				case 0:
+					return !g.IsErr && g.Data == expectedValue(hit.N)
+				case 1:
+					return g.Err == expectedErrText(hit.N)
+				default:
+					return strings.Contains(g.Err, expectedPanicText(hit.N))
+				}
+			}
 			for _, g := range b.got {
+				// items are identified by their tag; several items may legitimately share
+				// one (no Item.ID, no generator): match each result to an unmatched item
+				// with that tag whose outcome it carries
 				var hit *Sub
+				tagged := 0
 				for _, x := range b.subs {
 					s := wd.subs[x]
-					if s.IDSeen != "" && g.JobID == s.IDSeen && len(s.Entries) > 0 {
+					if len(s.Entries) == 0 || g.JobID != s.IDSeen {
+						continue
+					}
+					tagged++
+					if seen[s.N] == 0 && hit == nil && matches(s, g) {
 						hit = s
 					}
 				}
-				if hit == nil {
+				if tagged == 0 {
 					j.add("C08.a", g.Seq, "batch %d stream delivered a result tagged %q that matches no executed item", b.idx, g.JobID)
 					continue
 				}
+				if hit == nil {
+					j.add("C08.a", g.Seq, "batch %d stream delivered (%d, %q) tagged %q: no executed, not yet delivered item with that tag has this outcome (duplicate delivery or wrong value)", b.idx, g.Data, g.Err, g.JobID)
+					continue
+				}
 				seen[hit.N]++
-				if seen[hit.N] > 1 {
-					j.add("C08.a", g.Seq, "batch %d stream delivered item %d twice", b.idx, hit.N)
-				}
-				switch hit.Outcome {
-				case 0:
-					if g.IsErr || g.Data != expectedValue(hit.N) {
-						j.add("C08.a", g.Seq, "batch %d item %d: stream value (%d, %q), want (%d, nil)", b.idx, hit.N, g.Data, g.Err, expectedValue(hit.N))
-					}
-				case 1:
-					if g.Err != expectedErrText(hit.N) {
-						j.add("C08.a", g.Seq, "batch %d item %d: stream error %q, want %q", b.idx, hit.N, g.Err, expectedErrText(hit.N))
-					}
-				default:
-					if !strings.Contains(g.Err, expectedPanicText(hit.N)) {
-						j.add("C08.a", g.Seq, "batch %d item %d: stream error %q, want the panic %q", b.idx, hit.N, g.Err, expectedPanicText(hit.N))
-					}
-				}
 			}
 			for x := range want {
 				if seen[x] == 0 {
